@@ -171,28 +171,78 @@ fn has_nonfinite(v: &OwnedValue) -> bool {
     }
 }
 
+/// values outside the generator above: nil / real (incl. -0.0 and NaN) / repeated keys, so that the overwrite and
+/// the lost-NaN-row behaviour of `table.insert` / `iter` are compared with the model (Owned.v)
+fn gen_wild(rng: &mut Rng, depth: u32) -> OwnedValue {
+    // the outermost value is a table
+    match if depth == 0 { 4 } else { rng.below(if depth >= 3 { 4 } else { 7 }) } {
+        0 => OwnedValue::Nil,
+        1 => OwnedValue::Integer([0, 1, -1, i64::MIN, 42][rng.below(5) as usize]),
+        2 => OwnedValue::Real([0.0f64, -0.0, 1.5, f64::NAN, f64::INFINITY][rng.below(5) as usize]),
+        3 => OwnedValue::String(["", "a", "k1"][rng.below(3) as usize].to_string()),
+        _ => {
+            let n = rng.below(7) as usize;
+            let mut es = vec![];
+            for _ in 0..n {
+                let key = match rng.below(6) {
+                    0 => OwnedValue::Nil,
+                    1 | 2 => OwnedValue::Integer(rng.below(3) as i64),
+                    3 => OwnedValue::String(format!("k{}", rng.below(3))),
+                    _ => OwnedValue::Real([0.0f64, -0.0, 1.0, 1.5, f64::NAN, f64::INFINITY][rng.below(6) as usize]),
+                };
+                es.push(OwnedEntry { key, value: gen_wild(rng, depth + 1) });
+            }
+            OwnedValue::Table(es)
+        }
+    }
+}
+
+/// an OwnedValue as a term of C11Check.owned
+fn coq_owned(v: &OwnedValue) -> String {
+    match v {
+        OwnedValue::Nil => "onil".into(),
+        OwnedValue::Integer(i) => format!("(oint {})", out::z(*i)),
+        OwnedValue::Real(x) => format!("(oreal {})", out::n(x.to_bits())),
+        OwnedValue::String(s) => format!("(ostr {})", out::bytes(s.as_bytes())),
+        OwnedValue::Table(es) => format!(
+            "(otable {})",
+            out::list(es.iter().map(|e| format!("({}, {})", coq_owned(&e.key), coq_owned(&e.value))))
+        ),
+    }
+}
+
 fn value_case(rng: &mut Rng, w: &mut CaseWriter) {
     let f = [Fmt::Json, Fmt::Cbor, Fmt::Bincode][rng.below(3) as usize];
+    let wild = rng.chance(1, 3);
     let finite = rng.chance(3, 4);
-    let v0 = gen_owned(rng, 0, finite);
+    let v0 = if wild { gen_wild(rng, 0) } else { gen_owned(rng, 0, finite) };
     // the value as it lives in a VM, converted to its owned form
     let mut vm1 = Vm::new(()).unwrap();
     let val = vm1.insert_value(&v0).unwrap();
     let owned = OwnedValue::try_from(val).unwrap();
     let r = enc(f, &owned).and_then(|b| dec::<OwnedValue>(f, &b));
+    let mut back_term = None;
     let (ok, note) = match r {
         Ok(o2) => {
             let mut vm2 = Vm::new(()).unwrap();
             let v2 = vm2.insert_value(&o2).unwrap();
             let back = OwnedValue::try_from(v2).unwrap();
+            back_term = Some(coq_owned(&back));
             (owned_eq(&back, &v0) && owned_eq(&owned, &v0), format!("value {:?} through {:?} came back as {:?}", v0, f, back))
         }
         Err(e) => (false, format!("value {:?} through {:?}: {}", v0, f, e)),
     };
     // JSON has no representation of NaN / infinities (serde_json writes null): known finding A-28
-    let known = if f == Fmt::Json && has_nonfinite(&v0) { 10 } else { 0 };
+    let known = if f == Fmt::Json && has_nonfinite(&owned) { 10 } else { 0 };
     if known != 0 { w.count("rt.value.json_nonfinite"); }
-    rt_case(w, 3, &format!("value.{:?}", f), ok, known, note);
+    if !wild {
+        rt_case(w, 3, &format!("value.{:?}", f), ok, known, note.clone());
+    }
+    // the same run against the model of insert_value / try_from
+    w.count(if wild { "ow.wild" } else { "ow.plain" });
+    if let OwnedValue::Table(es) = &v0 { if es.len() > 1 { w.count("ow.table"); } }
+    let id = w.push(format!("OwRt {} {} {} {}", coq_owned(&v0), coq_owned(&owned), out::opt(back_term), out::n(known)), true);
+    w.note(id, note);
 }
 
 pub fn gen(a: &Args) {
